@@ -234,6 +234,15 @@ def r2_loops(text, ctx, loop_kinds=None):
             return ('%slet mut %s: usize = %s;\n%swhile %s < %s\n%s{\n' % (ind, idx, start, ind, idx, ov['limit'], ind)
                     + ''.join('%s    %s\n' % (ind, b) for b in binds)
                     + '%s    %s += 1;' % (ind, idx))
+        elif ov.get('kind') == 'pairs_owned':
+            # for (k, v) in <map consumed by value>: the model hands out its key-ordered entry list once
+            mm = re.fullmatch(r'\(\s*(\w+)\s*,\s*(\w+)\s*\)', pat)
+            if not mm:
+                raise Unsupported('pairs_owned loop pattern ' + pat)
+            n[0] += 1
+            return ('%slet %s = xref.entries.into_sorted_vec();\n%slet mut %s: usize = 0;\n%swhile %s < %s.len()\n%s{\n' % (ind, seq2, ind, idx, ind, idx, seq2, ind)
+                    + '%s    let %s = %s[%s].0;\n%s    let %s = clone_entry(&%s[%s].1);\n' % (ind, mm.group(1), seq2, idx, ind, mm.group(2), seq2, idx)
+                    + '%s    %s += 1;' % (ind, idx))
         elif ov.get('kind') == 'idpairs':
             # for (&(a, b), v) in &map  over a key-ordered entry list  [((a, b), v)]
             mm = re.fullmatch(r'\(\s*&\(\s*(\w+)\s*,\s*(\w+)\s*\)\s*,\s*(\w+)\s*\)', pat)
